@@ -89,7 +89,129 @@ func (e Ev) String() string {
 	return common.L(e.Op, common.I(e.A))
 }
 
+// Key: endpoint, sub-protocol (0 auto, 1 graphql-transport-ws, 2 graphql-ws), H = index into hdrVariants (the
+// Options.Headers multimap), init payload.  On an upstream connection (sconn.key) H is the IDENTITY the upgrade
+// request carried: the first table entry that looks the same to a net/http server (hdrHid).
 type Key struct{ E, P, H, IP int }
+
+// the header multimaps a subscriber may pass.  Multi-valued names (Header.Add, forwarded Cookie / X-Forwarded-For /
+// scope lists) that agree on the names and on the first value and differ later, in the number of values, in the order
+// of the values; the spelling of a name; empty values; a name without values.
+var hdrVariants = []http.Header{
+	0:  nil,
+	1:  {"X-T": {"b"}},
+	2:  {"X-Scope": {"read", "tenant-a"}},
+	3:  {"X-Scope": {"read", "tenant-b"}},             // differs from 2 at position 1
+	4:  {"X-Scope": {"read"}},                         // a prefix of 2, 3, 5
+	5:  {"X-Scope": {"read", "admin"}},                // one more value than 4
+	6:  {"X-Scope": {"tenant-a", "read"}},             // the values of 2 in another order
+	7:  {"x-scope": {"read", "tenant-a"}},             // 2 with the name spelled differently: another key, the same identity
+	8:  {"X-E": {""}},                                 // one empty value
+	9:  {"X-E": {}},                                   // a name without values: nothing is sent, same key as 0
+	10: {"X-E": {"", ""}},                             // two empty values
+	11: {"X-Scope": {"read", "tenant-a"}, "X-T": {"b"}},
+	12: {"X-Scope": {"read", "tenant-b"}, "X-T": {"b"}},
+	13: {"X-Scope": {"read", "tenant-a", "x"}},        // differs from 2 at position 2
+	14: {"X-T": {"b", "c"}},                           // 1 with a second value
+}
+
+var (
+	hdrHid    []int    // variant -> first variant with the same identity at an upgrade
+	hdrIdents []string // variant -> identity
+	hdrNames  = map[string]int{}
+	hdrValues = map[string]int{}
+)
+
+// what a net/http server reports for the X- names of an upgrade request that was written from h: names canonicalised
+// (values of names that fall together are appended in the order Header.Write writes the names), names without values
+// are not there
+func identOf(h http.Header) string {
+	raw := make([]string, 0, len(h))
+	for n := range h {
+		raw = append(raw, n)
+	}
+	sort.Strings(raw)
+	canon := http.Header{}
+	for _, n := range raw {
+		for _, v := range h[n] {
+			canon.Add(n, v)
+		}
+	}
+	names := make([]string, 0, len(canon))
+	for n := range canon {
+		if strings.HasPrefix(n, "X-") && len(canon[n]) > 0 {
+			names = append(names, n)
+		}
+	}
+	sort.Strings(names)
+	var sb strings.Builder
+	for _, n := range names {
+		sb.WriteString(n)
+		for _, v := range canon[n] {
+			sb.WriteString("\x1f")
+			sb.WriteString(v)
+		}
+		sb.WriteString("\x1e")
+	}
+	return sb.String()
+}
+
+func init() {
+	for _, h := range hdrVariants {
+		id := identOf(h)
+		hid := len(hdrIdents)
+		for j, x := range hdrIdents {
+			if x == id {
+				hid = j
+				break
+			}
+		}
+		hdrIdents = append(hdrIdents, id)
+		hdrHid = append(hdrHid, hid)
+		raw := make([]string, 0, len(h))
+		for n := range h {
+			raw = append(raw, n)
+		}
+		sort.Strings(raw)
+		for _, n := range raw {
+			if _, ok := hdrNames[n]; !ok {
+				hdrNames[n] = 1 + len(hdrNames)
+			}
+			for _, v := range h[n] {
+				if _, ok := hdrValues[v]; !ok {
+					hdrValues[v] = len(hdrValues)
+				}
+			}
+		}
+	}
+}
+
+// ident: the key with the header variant replaced by the identity it presents (idempotent)
+func ident(k Key) Key {
+	if k.H >= 0 && k.H < len(hdrHid) {
+		k.H = hdrHid[k.H]
+	}
+	return k
+}
+
+// "(h hid (name value...)...)": the multimap in the order Header.Write enumerates the names, strings as numbers
+func hdrRow(h int) string {
+	parts := []string{common.I(h), common.I(hdrHid[h])}
+	hd := hdrVariants[h]
+	raw := make([]string, 0, len(hd))
+	for n := range hd {
+		raw = append(raw, n)
+	}
+	sort.Strings(raw)
+	for _, n := range raw {
+		e := []string{common.I(hdrNames[n])}
+		for _, v := range hd[n] {
+			e = append(e, common.I(hdrValues[v]))
+		}
+		parts = append(parts, common.L(e...))
+	}
+	return common.L(parts...)
+}
 
 func (k Key) String() string {
 	return common.L(common.I(k.E), common.I(k.P), common.I(k.H), common.I(k.IP))
@@ -117,7 +239,20 @@ func (s Sched) Head() string {
 	for _, e := range s.Evs {
 		es = append(es, e.String())
 	}
-	return common.L("idle", common.I(s.Idle)) + " " + common.L(ks...) + " " + common.L(es...)
+	used := map[int]bool{}
+	for _, i := range ids {
+		if h := s.Keys[i].H; h >= 0 && h < len(hdrVariants) {
+			used[h] = true
+			used[hdrHid[h]] = true
+		}
+	}
+	hs := []string{"hdrs"}
+	for h := range hdrVariants {
+		if used[h] {
+			hs = append(hs, hdrRow(h))
+		}
+	}
+	return common.L("idle", common.I(s.Idle)) + " " + common.L(ks...) + " " + common.L(hs...) + " " + common.L(es...)
 }
 
 // ----------------------------------------------------------------------------- world
@@ -223,8 +358,14 @@ func parseKeyFromReq(r *http.Request) Key {
 	default:
 		k.P = 0
 	}
-	if r.Header.Get("X-T") == "b" {
-		k.H = 1
+	// the identity the upgrade request carried: every value of every X- name
+	k.H = 99
+	id := identOf(r.Header)
+	for j, x := range hdrIdents {
+		if x == id {
+			k.H = j
+			break
+		}
 	}
 	k.IP = -1
 	return k
@@ -541,8 +682,8 @@ func (w *World) optsFor(i int, k Key, sse bool) sc.Options {
 	case 2:
 		o.WSSubprotocol = sc.SubprotocolGraphQLWS
 	}
-	if k.H == 1 {
-		o.Headers = http.Header{"X-T": []string{"b"}}
+	if k.H > 0 && k.H < len(hdrVariants) {
+		o.Headers = hdrVariants[k.H].Clone()
 	}
 	if k.IP > 0 {
 		o.InitPayload = map[string]any{"t": k.IP}
@@ -600,6 +741,7 @@ func (w *World) waitSubProgress(i int, nconns int, k Key) {
 	// behind a pending dial for the same endpoint/subprotocol/headers the Subscribe may legitimately
 	// park; otherwise it must make progress, so wait for it generously
 	wait := time.Second
+	k = ident(k)
 	w.mu.Lock()
 	for _, c := range w.conns {
 		if c.phase <= 1 && c.key.E == k.E && c.key.P == k.P && c.key.H == k.H {
@@ -641,6 +783,7 @@ func (w *World) cancelSub(i int) bool {
 }
 
 func (w *World) pending(keyIdx Key, phase int) *sconn {
+	keyIdx = ident(keyIdx)
 	w.mu.Lock()
 	defer w.mu.Unlock()
 	for _, c := range w.conns {
@@ -653,6 +796,7 @@ func (w *World) pending(keyIdx Key, phase int) *sconn {
 }
 
 func (w *World) liveConn(k Key) *sconn {
+	k = ident(k)
 	w.mu.Lock()
 	defer w.mu.Unlock()
 	for j := len(w.conns) - 1; j >= 0; j-- {
@@ -774,7 +918,10 @@ func (w *World) sendFrame(c *sconn, ft int, hasID bool, id string, pl int, tag i
 	return true
 }
 
-func keyStr(k Key) string { return fmt.Sprintf("%d/%d/%d/%d", k.E, k.P, k.H, k.IP) }
+func keyStr(k Key) string {
+	k = ident(k)
+	return fmt.Sprintf("%d/%d/%d/%d", k.E, k.P, k.H, k.IP)
+}
 
 func (w *World) doAccept(c *sconn) {
 	w.logf(common.L("accept", common.I(c.n)))
@@ -1483,6 +1630,37 @@ func genAll(seed uint64, thorough bool) []*Sched {
 			add(0, map[int]Key{0: kA, 1: kB}, evs)
 		})
 	}
+	// --- family 2h: two subscribers whose option tuples differ in the HEADER MULTIMAP only (first values and names
+	// agree, a later value / the number of values / the order of the values / the spelling of a name / empty values
+	// differ): a connection each, every frame to its own subscriber, the upstream sees each one's own header values.
+	// Pairs marked same present one key (a name without values is an absent name): one connection.
+	hdrPairs := [][2]int{{2, 3}, {4, 5}, {5, 4}, {2, 6}, {2, 13}, {11, 12}, {1, 14}, {2, 7}, {8, 0}, {8, 10}, {8, 9}, {9, 0}, {0, 9}, {3, 3}}
+	for pi, pr := range hdrPairs {
+		for _, pp := range []int{1, 2} {
+			if !thorough && pp == 2 && pi%3 != 0 {
+				continue
+			}
+			kA, kB := Key{0, pp, pr[0], 0}, Key{0, pp, pr[1], 0}
+			base := [][]Ev{
+				{{Op: "sub", A: 0, B: 0}, {Op: "accept", A: 0}, {Op: "ack", A: 0}},
+				{{Op: "sub", A: 1, B: 1}, {Op: "accept", A: 1}, {Op: "ack", A: 1}},
+			}
+			n := 0
+			merges(base, func(m []Ev) {
+				n++
+				if !thorough && n%5 != 1 {
+					return
+				}
+				evs := append(m, tail(0, []int{0, 1})...)
+				evs = append(evs[:len(evs)-1], Ev{Op: "cancel", A: 0}, Ev{Op: "next", A: 1, B: 31}, Ev{Op: "drop", A: 1}, Ev{Op: "stats"})
+				add(0, map[int]Key{0: kA, 1: kB}, evs)
+			})
+			// a third subscriber with the first one's tuple arrives last: it shares with 0, never with 1
+			add(2, map[int]Key{0: kA, 1: kB, 2: kA}, []Ev{{Op: "sub", A: 0}, {Op: "accept", A: 0}, {Op: "ack", A: 0}, {Op: "sub", A: 1},
+				{Op: "flush"}, {Op: "sub", A: 2}, {Op: "flush"}, {Op: "next", A: 0, B: 61}, {Op: "next", A: 1, B: 62}, {Op: "next", A: 2, B: 63},
+				{Op: "complete", A: 1}, {Op: "next", A: 2, B: 64}, {Op: "cancel", A: 0}, {Op: "next", A: 2, B: 65}, {Op: "cancel", A: 2}, {Op: "stats"}})
+		}
+	}
 	// --- family 3: seeded longer schedules, three subscribers over two keys
 	nrand := 120
 	if thorough {
@@ -1494,6 +1672,12 @@ func genAll(seed uint64, thorough bool) []*Sched {
 			idle = 0
 		}
 		kB := keyVariants[1+r.Pick(len(keyVariants)-1)]
+		k0 := k0
+		if r.Chance(1, 4) {
+			// multi-valued headers: the third subscriber agrees with the others on names and first values
+			k0 = Key{0, 1 + r.Pick(2), 2, 0}
+			kB = Key{0, k0.P, common.PickOf(r, []int{3, 4, 5, 6, 7, 13}), 0}
+		}
 		keys := map[int]Key{0: k0, 1: k0, 2: kB}
 		if r.Chance(1, 3) {
 			keys[2] = k0
